@@ -2,9 +2,9 @@ package mr
 
 import (
 	"context"
-	"os"
 	"errors"
 	"fmt"
+	"os"
 	"sort"
 	"strings"
 	"testing"
@@ -154,6 +154,34 @@ func (s scen) run(r *vrt.Run) {
 
 	outcome := ""
 	returned := false
+	r.AtEnd(func() {
+		if !returned {
+			r.Failf("the call never returned (deadlock): threads %v", r.Leaked())
+			return
+		}
+		if leaked := r.Leaked(); len(leaked) > 0 && (o.genDone || s.entry == "MapReduceChan") {
+			var sites []string
+			for _, l := range leaked {
+				sites = append(sites, l.Site+" blocked in "+l.Blocked)
+			}
+			sort.Strings(sites)
+			r.Failf("goroutines left running after the call returned (outcome %s): %v", outcome, sites)
+		}
+		// at-most-once always; worker bound always
+		for i, c := range o.mapped {
+			if c > 1 {
+				r.Failf("item %d mapped %d times", i, c)
+			}
+		}
+		for v, c := range o.reduced {
+			if c > 1 {
+				r.Failf("value %d reduced %d times", v, c)
+			}
+		}
+		if o.maxActive > s.workers {
+			r.Failf("%d mappers ran at the same time, workers=%d", o.maxActive, s.workers)
+		}
+	})
 	func() {
 		defer func() {
 			if e := recover(); e != nil {
@@ -229,34 +257,7 @@ func (s scen) run(r *vrt.Run) {
 	}()
 	r.Outcome("%s", outcome)
 	s.check(r, o, outcome)
-	r.AtEnd(func() {
-		if !returned {
-			r.Failf("the call never returned (deadlock): threads %v", r.Leaked())
-			return
-		}
-		if leaked := r.Leaked(); len(leaked) > 0 && (o.genDone || s.entry == "MapReduceChan") {
-			var sites []string
-			for _, l := range leaked {
-				sites = append(sites, l.Site+" blocked in "+l.Blocked)
-			}
-			sort.Strings(sites)
-			r.Failf("goroutines left running after the call returned (outcome %s): %v", outcome, sites)
-		}
-		// at-most-once always; worker bound always
-		for i, c := range o.mapped {
-			if c > 1 {
-				r.Failf("item %d mapped %d times", i, c)
-			}
-		}
-		for v, c := range o.reduced {
-			if c > 1 {
-				r.Failf("value %d reduced %d times", v, c)
-			}
-		}
-		if o.maxActive > s.workers {
-			r.Failf("%d mappers ran at the same time, workers=%d", o.maxActive, s.workers)
-		}
-	})
+
 }
 
 type nopWriter struct{}
